@@ -44,9 +44,11 @@ var theT *testing.T
 func TestC04(t *testing.T) {
 	theT = t
 	// An unbounded recursion of the compiler ends in "fatal error: stack
-	// overflow" either way; a 64 MB limit (instead of 1 GB) makes it, and its
-	// minimisation through child processes, fifty times cheaper.
-	debug.SetMaxStack(64 << 20)
+	// overflow" either way; a 256 MB limit (instead of 1 GB) makes it, and
+	// its minimisation through child processes, cheaper. Sources are at most
+	// 64 KiB, so a legitimate recursion (one level per byte of a maximally
+	// nested source) stays far below it.
+	debug.SetMaxStack(256 << 20)
 	loadCorpus()
 	harness.Main(t, harness.Check{Prop: "C04", Exec: exec, ShrinkBudget: 300})
 }
